@@ -23,6 +23,9 @@ const (
 var (
 	EM cbor.EncMode
 	DM cbor.DecMode
+	// DMDefault is the CBOR library's default decoding mode (indefinite-length
+	// items allowed)
+	DMDefault cbor.DecMode
 )
 
 func init() {
@@ -32,6 +35,10 @@ func init() {
 		panic(err)
 	}
 	DM, err = cbor.DecOptions{IndefLength: cbor.IndefLengthForbidden}.DecMode()
+	if err != nil {
+		panic(err)
+	}
+	DMDefault, err = cbor.DecOptions{}.DecMode()
 	if err != nil {
 		panic(err)
 	}
@@ -103,6 +110,7 @@ func (o ExtP1Claims) MarshalCBOR() ([]byte, error) {
 	return encoding.SerializeStructToCBOR(EM, &o)
 }
 func (o *ExtP1Claims) UnmarshalCBOR(data []byte) error {
+	o.Profile = nil // as P1Claims does: the profile claim is taken from data
 	return encoding.PopulateStructFromCBOR(DM, data, o)
 }
 func (o ExtP1Claims) MarshalJSON() ([]byte, error) {
@@ -112,6 +120,7 @@ func (o ExtP1Claims) MarshalJSON() ([]byte, error) {
 	return encoding.SerializeStructToJSON(&o)
 }
 func (o *ExtP1Claims) UnmarshalJSON(data []byte) error {
+	o.Profile = nil // as P1Claims does
 	return encoding.PopulateStructFromJSON(data, o)
 }
 
@@ -128,6 +137,38 @@ type ExtP1Profile struct{}
 
 func (ExtP1Profile) GetName() string             { return ExtP1Name }
 func (ExtP1Profile) GetClaims() psatoken.IClaims { return NewExtP1Claims() }
+
+// ---- an extension of profile 2 with its OWN software-component type: the
+// stock component plus one field, no hand-written codecs (the CBOR / JSON
+// libraries flatten the embedded struct) ------------------------------------------
+
+const ExtOwnerName = "http://example.com/psa-owner/1.0.0"
+
+type OwnerComponent struct {
+	psatoken.SwComponent
+	Owner *string `cbor:"7,keyasint,omitempty" json:"owner,omitempty"`
+}
+
+type ExtOwnerClaims struct {
+	psatoken.P2Claims
+}
+
+func NewExtOwnerClaims() psatoken.IClaims {
+	p := eat.Profile{}
+	if err := p.Set(ExtOwnerName); err != nil {
+		panic(err)
+	}
+	return &ExtOwnerClaims{P2Claims: psatoken.P2Claims{
+		Profile:          &p,
+		SwComponents:     &psatoken.SwComponents[*OwnerComponent]{},
+		CanonicalProfile: ExtOwnerName,
+	}}
+}
+
+type ExtOwnerProfile struct{}
+
+func (ExtOwnerProfile) GetName() string             { return ExtOwnerName }
+func (ExtOwnerProfile) GetClaims() psatoken.IClaims { return NewExtOwnerClaims() }
 
 // ---- a stricter extension of profile 2 whose own rules are reported with the
 // library's "ignorable" sentinels ---------------------------------------------------
@@ -247,6 +288,8 @@ func Register(names ...string) error {
 			p = ExtP1Profile{}
 		case ExtStrictName:
 			p = ExtStrictProfile{}
+		case ExtOwnerName:
+			p = ExtOwnerProfile{}
 		default:
 			return errors.New("unknown extension profile " + n)
 		}
@@ -260,7 +303,30 @@ func Register(names ...string) error {
 
 // ---- generic numbered profiles (for registry histories) ------------------------------
 
+// MixinClaims is an extension of profile 2 whose claims type embeds TWO
+// structs: a "mixin" of extra claims (no profile field) FIRST, then P2Claims.
+type MixinExtra struct {
+	Mixin *string `cbor:"-75300,keyasint,omitempty" json:"x-mixin,omitempty"`
+}
+
+type MixinClaims struct {
+	MixinExtra
+	psatoken.P2Claims
+}
+
+func (o *MixinClaims) Validate() error { return psatoken.ValidateClaims(o) }
+
+func (o MixinClaims) MarshalCBOR() ([]byte, error) { return encoding.SerializeStructToCBOR(EM, &o) }
+func (o *MixinClaims) UnmarshalCBOR(data []byte) error {
+	return encoding.PopulateStructFromCBOR(DM, data, o)
+}
+func (o MixinClaims) MarshalJSON() ([]byte, error) { return encoding.SerializeStructToJSON(&o) }
+func (o *MixinClaims) UnmarshalJSON(data []byte) error {
+	return encoding.PopulateStructFromJSON(data, o)
+}
+
 // NumberedProfile is an extension of profile 2 (or 1) under an arbitrary name.
+// Base 3 = profile 2 through MixinClaims.
 type NumberedProfile struct {
 	Name string
 	Base int
@@ -268,6 +334,13 @@ type NumberedProfile struct {
 
 func (p NumberedProfile) GetName() string { return p.Name }
 func (p NumberedProfile) GetClaims() psatoken.IClaims {
+	if p.Base == 3 {
+		ep := eat.Profile{}
+		if err := ep.Set(p.Name); err != nil {
+			panic(err)
+		}
+		return &MixinClaims{P2Claims: psatoken.P2Claims{Profile: &ep, SwComponents: &psatoken.SwComponents[*psatoken.SwComponent]{}, CanonicalProfile: p.Name}}
+	}
 	if p.Base == 1 {
 		name := p.Name
 		return &ExtP1Claims{P1Claims: psatoken.P1Claims{Profile: &name, SwComponents: &psatoken.SwComponents[*psatoken.SwComponent]{}, CanonicalProfile: p.Name}}
